@@ -91,7 +91,9 @@ def _run(cfg, V, r, sdl):
     obs = []
     if cfg['kind'] == 'roundtrip':
         d = elm.Schematic(unit=cfg.get('unit', 5))
-        d.add(source_of(elm, V, cfg['source'], cfg['flags']).up())
+        first = source_of(elm, V, cfg['source'], cfg['flags']).up()
+        if cfg.get('origin'): first = first.at(tuple(cfg['origin']))          # drawings whose coordinates fall half-way between two hundredths
+        d.add(first)
         d.add(passive_of(elm, V, cfg['p1'], 'X1', {'reverse': cfg.get('p1rev', False)}).right())
         d.add(passive_of(elm, V, cfg['p2'], 'X2', {}).down())
         d.add(elm.Line().left())
@@ -193,6 +195,9 @@ def configs(tier, seed):
             for p1, p2 in pairs:
                 cfgs.append({'kind': 'roundtrip', 'source': src, 'flags': fl, 'p1': p1, 'p2': p2, 'p1rev': rng.random() < 0.5, 'ground': True})
     cfgs.append({'kind': 'roundtrip', 'source': 'V', 'flags': {}, 'p1': 'R', 'p2': 'C', 'ground': False})
+    for unit, origin in ((1.125, None), (5, (0.005, 0.005)), (2.125, (-1.125, 3.375)), (1.375, (0.335, -0.665))):
+        for src in ('V', 'Iac'):
+            cfgs.append({'kind': 'roundtrip', 'source': src, 'flags': {}, 'p1': 'R', 'p2': 'L', 'ground': True, 'unit': unit, 'origin': origin})
     for third in ('capacitor', 'inductance'):
         for dirs in (('up', 'right', 'down', 'left'), ('down', 'left', 'up', 'right'), ('right', 'down', 'left', 'up')):
             for pa in (False, True):
